@@ -100,20 +100,38 @@ def reads_repointed_only_for_own_cell(repo: Repo, rep: Report, rule: str) -> Non
 
 
 def bundle_literal_sibling_branches(repo: Repo, rep: Report, rule: str) -> None:
-    """Both member-contributing branches of the analyzer's bundle-literal check test members against, and record them in, the seen-map."""
+    """Both member-contributing branches of the analyzer's bundle-literal check test members against, and record them in, the seen-map.
+    Locals are identified by role: the seen-map is the local initialised to an empty dict, the member set the local initialised to set()."""
+    from .util import canon
+
     ib = repo.func("SemanticAnalyzer._infer_bundle_literal_type")
+    c = canon(ib)
+    du = c.du
+    seen = {n for n, ds in du.defs.items() if any(isinstance(v, ast.Dict) and not v.keys for v, h, _ in ds if h == "assign")}
+    members = {n for n, ds in du.defs.items() if any(isinstance(v, ast.Call) and call_name(v) == "set" and not v.args for v, h, _ in ds if h == "assign")}
+    if not seen or not members:
+        rep.unknown(rule, "bundle literal check: seen-map and member set", f"locals not recognised (dict locals {sorted(seen)}, set locals {sorted(members)})", ib.loc())
+        return
     n_br = 0
     for n in walk_local(ib.node):
-        if isinstance(n, ast.If) and norm(n.test).startswith("isinstance(element_type,") and ("SignalValue" in norm(n.test) or "BundleValue" in norm(n.test)):
-            n_br += 1
-            body = n.body
-            kind = "SignalValue" if "SignalValue" in norm(n.test) else "BundleValue"
-            adds = [x for s in body for x in ast.walk(s) if (isinstance(x, ast.Call) and call_name(x) in ("add", "update") and "signal_types" in norm(x.func)) or (isinstance(x, ast.AugAssign) and norm(x.target) == "signal_types")]
-            recs = [x for s in body for x in ast.walk(s) if (isinstance(x, ast.Subscript) and isinstance(x.ctx, ast.Store) and norm(x.value) == "seen_signals") or (isinstance(x, ast.Call) and call_name(x) in ("update", "setdefault") and norm(x.func.value) == "seen_signals")]
-            tests = [x for s in body for x in ast.walk(s) if (isinstance(x, ast.Compare) and isinstance(x.ops[0], ast.In) and norm(x.comparators[0]) == "seen_signals") or
-                     (isinstance(x, ast.BinOp) and isinstance(x.op, ast.BitAnd) and "seen_signals" in norm(x))]
-            errs = [x for s in body for x in ast.walk(s) if isinstance(x, ast.Call) and isinstance(x.func, ast.Attribute) and x.func.attr == "error"]
-            ok = bool(adds) and bool(recs) and bool(tests) and bool(errs)
-            rep.check(ok, rule, f"bundle literal check, {kind} members: tested against and recorded in the seen-map",
-                      f"adds:{len(adds)} records:{len(recs)} tests:{len(tests)} errors:{len(errs)}" + ("" if ok else ": members contributed by this branch escape duplicate detection, so a later duplicate is accepted and the values are summed"), ib.loc(n))
+        if not isinstance(n, ast.If):
+            continue
+        t = c.text(n.test)
+        if not (t.startswith("isinstance(self.get_expr_type(ELEM(expr.elements)),") and ("SignalValue" in t or "BundleValue" in t)):
+            continue
+        n_br += 1
+        body = n.body
+        kind = "SignalValue" if "SignalValue" in t else "BundleValue"
+        def is_name(x, pool):
+            return isinstance(x, ast.Name) and x.id in pool
+        adds = [x for s_ in body for x in ast.walk(s_) if (isinstance(x, ast.Call) and call_name(x) in ("add", "update") and isinstance(x.func, ast.Attribute) and is_name(x.func.value, members))
+                or (isinstance(x, ast.AugAssign) and is_name(x.target, members))]
+        recs = [x for s_ in body for x in ast.walk(s_) if (isinstance(x, ast.Subscript) and isinstance(x.ctx, ast.Store) and is_name(x.value, seen))
+                or (isinstance(x, ast.Call) and call_name(x) in ("update", "setdefault") and isinstance(x.func, ast.Attribute) and is_name(x.func.value, seen))]
+        tests = [x for s_ in body for x in ast.walk(s_) if (isinstance(x, ast.Compare) and isinstance(x.ops[0], ast.In) and is_name(x.comparators[0], seen))
+                 or (isinstance(x, ast.BinOp) and isinstance(x.op, ast.BitAnd) and any(is_name(y, seen) for y in ast.walk(x)))]
+        errs = [x for s_ in body for x in ast.walk(s_) if isinstance(x, ast.Call) and isinstance(x.func, ast.Attribute) and x.func.attr == "error"]
+        ok = bool(adds) and bool(recs) and bool(tests) and bool(errs)
+        rep.check(ok, rule, f"bundle literal check, {kind} members: tested against and recorded in the seen-map",
+                  f"adds:{len(adds)} records:{len(recs)} tests:{len(tests)} errors:{len(errs)}" + ("" if ok else ": members contributed by this branch escape duplicate detection, so a later duplicate is accepted and the values are summed"), ib.loc(n))
     rep.floor(rule, "member-contributing branches", n_br, 2)
